@@ -6,6 +6,7 @@ from runner import Stream, run_t1_stream
 import pathlib_go as pg
 import layergen as lg
 import hiddengen as hg
+import pathlib_go as pg
 
 ASSUMPTIONS = [
     "names and hidden paths of different absoluteness are outside the quantifier (not lexically comparable)",
@@ -55,4 +56,58 @@ def run(ctx):
         return None
     st = Stream("layer_hidden_transparent", lines, oracle=oracle, nontrivial=lambda i, l, o: o.startswith("fwd"),
                 desc="every HiddenFS method (except RemoveAll) on non-hidden names incl. siblings sharing a string prefix with a hidden path, %d hidden sets; oracle: exactly one forwarded call with unchanged arguments and results; non-trivial = forwarded" % (len(hg.HIDDEN_SETS) + 1))
-    return {"streams": [run_t1_stream("C15", st, model_ok)]}
+    return {"streams": [run_t1_stream("C15", st, model_ok), twin_stream(tier, rnd, model_ok)]}
+
+
+def twin_stream(tier, rnd, model_ok):
+    """the same operations through HiddenFS and directly on the underlying filesystem, on real trees"""
+    import t2
+    import worldrun
+    import layerworld as lw
+    n = 150 if tier == "quick" else 3000
+    cases = []
+    for i in range(n):
+        prefix = [None, b"/root"][i % 2]
+        inits, view, hs, hdir = lw.hidden_world(rnd, prefix)
+        visible = [v for v in view if not lw.below_any(hs, v)]
+        ents = {v: view[v][0] for v in visible}
+        ops = [("dump",)]
+        for _ in range(rnd.randint(1, 6)):
+            k = rnd.choice([x for x in t2.MUTATORS if x != "removeall"] + ["stat", "lstat", "readlink", "read"])
+            o = t2.gen_op(rnd, ents, [k])
+            # keep to names that are lexically not hidden, and do not rename ancestors of hidden paths
+            names = [x for j, x in enumerate(o[1:], 1) if isinstance(x, bytes) and j in t2._PATH_ARGS.get(o[0], [])]
+            if any((not x.startswith(b"/")) or lw.below_any(hs, pg.goclean(x)) for x in names):
+                continue
+            if o[0] == "symlink" and (lw.below_any(hs, pg.goclean(o[1])) if o[1].startswith(b"/") else lw.below_any(hs, pg.gojoin(pg.godir(pg.goclean(o[2])), o[1]))):
+                continue
+            if o[0] == "rename" and any(h != pg.goclean(o[1]) and pg.within(pg.goclean(o[1]), h) for h in hs):
+                continue
+            ops += [o, ("dump",)]
+        cfga = {"ctor": "generic", "q": b"/unused-backup", "p": prefix, "hs": hs}
+        cfgb = {"ctor": "generic", "q": b"/unused-backup", "p": prefix, "hs": []}
+        cases.append(t2.Case("c15t-%d-a" % i, cfga, inits, ops, meta={"direct": True, "raw": True}))
+        cases.append(t2.Case("c15t-%d-b" % i, cfgb, inits, ops, meta={"direct": True, "raw": True, "twin": True}))
+
+    def post(cases_, impl):
+        out = []
+        byid = {c.id: c for c in cases_}
+        for c in cases_:
+            if not c.id.endswith("-a"):
+                continue
+            a, b = impl.get(c.id), impl.get(c.id[:-2] + "-b")
+            if not a or not b:
+                continue
+            for i, o in enumerate(c.ops):
+                if o[0] == "dump":
+                    continue
+                if a["R"].get(i) != b["R"].get(i):
+                    out.append((c.id, "%s %s: through HiddenFS %s, on the underlying filesystem %s" % (o[0], [enc(x) if isinstance(x, bytes) else x for x in o[1:]], a["R"].get(i), b["R"].get(i))))
+                    break
+                if sorted(a["S"].get(str(i + 1), [])) != sorted(b["S"].get(str(i + 1), [])):
+                    out.append((c.id, "after %s %s the tree differs from the run on the underlying filesystem: %s" % (o[0], [enc(x) if isinstance(x, bytes) else x for x in o[1:]],
+                                                                                                                      sorted(set(a["S"].get(str(i + 1), [])) ^ set(b["S"].get(str(i + 1), [])))[:4])))
+                    break
+        return out
+    return worldrun.run_stream("C15", "twin_real_trees", cases, model_ok, level=1, post=post,
+                               desc="real trees around hidden paths in a chroot: every operation (except RemoveAll) on lexically non-hidden absolute names through HiddenFS and, as twin, directly on the underlying filesystem (OSFS or PrefixFS); the HiddenFS run is also compared with the model; oracle: identical results and identical trees after every operation")
